@@ -48,6 +48,9 @@ func checkC15(c c15Case) string {
 	}
 	b := buildList(cues)
 	b.sub.ApplyLinearCorrection(time.Duration(c.A1), time.Duration(c.D1), time.Duration(c.A2), time.Duration(c.D2))
+	if m := b.metaDiff(); m != "" {
+		return m
+	}
 	got := b.sub.Items
 	if len(got) != len(cues) {
 		return fmt.Sprintf("number of cues changed: %d -> %d", len(cues), len(got))
@@ -97,6 +100,7 @@ func checkC15(c c15Case) string {
 
 func TestC15(t *testing.T) {
 	runWitnesses(t, "C15")
+	cliCases(t, "C15", "apply-linear-correction")
 	const day = 24 * nsHour
 	ratios := [][2]int64{{25000, 23976}, {23976, 25000}, {3000, 2997}, {2997, 3000}, {24000, 23976}, {1, 2}, {2, 1}, {1, 1}, {1001, 1000}, {24, 25}, {25, 24}}
 	rapidCheck(t, "C15/random", tier(40000, 4000000), func(rt *rapid.T) {
